@@ -158,6 +158,12 @@ pub fn cycles(seed: u64, n_cycles: usize) -> Script {
         if rng.gen_bool(0.3) { steps.push(submit(&mut rng)); }
         steps.push(Step::Open { deadline: 30000 });
         steps.push(Step::Drain { cap: pick(&mut rng, &[16, 64, 4096]) });
+        // now and then the broker refuses the connection (server unavailable, not authorized): the cycle ends there
+        if c > 0 && rng.gen_bool(0.12) {
+            steps.push(Step::Connack { sp: false, rm: -1, ka: -1, tam: -1, mqos: -1, rc: if cfg.ver == 5 { pick(&mut rng, &[0x87, 0x88]) } else { pick(&mut rng, &[3, 5]) }, ret: -1, wild: -1, subid: -1, shared: -1, mps: -1, acid: String::new() });
+            steps.push(Step::Close {});
+            continue;
+        }
         steps.push(Step::Connack { sp: c > 0 && rng.gen_bool(0.8), rm: pick(&mut rng, &[-1, -1, 1, 2, 3]), ka: -1, tam: pick(&mut rng, &[-1, 0, 2]), mqos: -1, rc: 0, ret: -1, wild: -1, subid: -1, shared: -1, mps: -1, acid: String::new() });
         for _ in 0..rng.gen_range(0..4) { steps.push(submit(&mut rng)); }
         let micro = rng.gen_range(0..14);
